@@ -300,9 +300,15 @@ def main():
                 dist['terminated_by_design'] = dist.get('terminated_by_design', 0) + 1
         else:
             raw = r['raw']
-            if ' sh.push ' in raw or ' wa.dec ' in raw:
+            stored_cont = len(re.findall(r' sh\.seen2 \d+ 0 ', raw))
+            if stored_cont or ' wa.fin ' in raw:
                 nontriv.add(re.sub(r'^case \S+', 'case', c))
-            for key in ('sh.push', 'sh.visit', 'sh.run', 'wa.dec', 'wa.latch', 'ag.yield'):
+            dist['continuation_stored'] = dist.get('continuation_stored', 0) + stored_cont
+            dist['flag_seen_under_lock'] = dist.get('flag_seen_under_lock', 0) + len(re.findall(r' sh\.seen2 \d+ 1 ', raw))
+            dist['flag_seen_first_read'] = dist.get('flag_seen_first_read', 0) + len(re.findall(r' sh\.seen1 \d+ 1 ', raw))
+            inline = 1 if re.search(r'^[1-9]\d* fire\.', raw, flags=re.M) and 'kind=when_all' not in c else 0
+            dist['predecessor_completed_inline_in_consumer'] = dist.get('predecessor_completed_inline_in_consumer', 0) + inline
+            for key in ('wa.fin', 'wa.latch', 'wa.store', 'wa.zero'):
                 dist[key] = dist.get(key, 0) + raw.count(f' {key} ')
     samples = (e0_cases[len([c for c in corpus if True]):][:2] + e1_cases[:1]) or (e0_cases + e1_cases)[:2]
     cov = {
